@@ -32,12 +32,13 @@ def plan(tier):
             "required_classes": ["call:evolve", "call:evolve-imag", "call:add", "call:apply", "call:contract", "call:measure",
                                  "call:evolve_exact", "call:variational_compress", "call:expand_bond_dimension", "call:dump",
                                  "mutate:scale-inplace", "mutate:setitem", "mutate:array-slice", "mutate:compress-lossy",
-                                 "bond-above-own-limit", "mpdm", "offset!=0"],
-            "required_counters": {"fingerprints_compared": 3000, "calls": 600}}
+                                 "bond-above-own-limit", "mpdm", "offset!=0", "tree", "call:tree-evolve-imag", "call:tree-evolve",
+                                 "call:tree-apply", "call:tree-add", "tree-mutate:array-slice", "tree-mutate:compress-lossy"],
+            "required_counters": {"fingerprints_compared": 3000, "calls": 600, "tree_fingerprints_compared": 300}}
     if tier == "quick":
         base.update({"ncases": 200, "min_nontrivial": 120})
     else:
-        base.update({"ncases": 3500, "min_nontrivial": 2500, "required_counters": {"fingerprints_compared": 60000, "calls": 12000}})
+        base.update({"ncases": 3500, "min_nontrivial": 2500, "required_counters": {"fingerprints_compared": 60000, "calls": 12000, "tree_fingerprints_compared": 6000}})
     return base
 
 
@@ -138,6 +139,9 @@ def run_case(ctx):
     from renormalizer.mps import Mpo, MpDm, Mps
     from renormalizer.utils import EvolveConfig, EvolveMethod, Quantity, CompressConfig, CompressCriteria
     rng = ctx.rng
+    if ctx.idx % 5 == 4:
+        from rv.props import c13_tree
+        return c13_tree.run_tree_case(ctx)
     em = evolve.hermitian_model(ctx, nsite=(2, 5), max_dim=120, min_dim=6)
     gm, model = em.gm, em.model
     qntot = None
